@@ -492,5 +492,139 @@ theorem grad_list (bm : BMode) (H : Heap ℝ) (root : Nat) (hdag : HeapDag H) (h
       exact hs
     · exact absurd het (hother v hv hvS e he)
 
+/-! ## one consumer, without any shape hypothesis -/
+
+theorem edge_sum_single_ip {T : Type} (ip : Tensor ℝ → T → ℝ) (H : Heap ℝ) (pull : Rule ℝ → Tensor ℝ → Out (Tensor ℝ))
+    (G : Nat → Option (Tensor ℝ)) (n u : Nat) (t : T) (r : Rule ℝ) (htn : H.tracked n = true)
+    (hf : (H.ctx u).edges.filter (fun e => decide (e.target = n)) = [⟨n, r⟩]) :
+    ((edgesOf H u).map (fun e => edgeTerm ip pull H.tracked G n t u e)).sum
+      = match G u with
+        | some gy => (match pull r gy with | .ok g => ip g t | _ => 0)
+        | none => 0 := by
+  unfold edgesOf
+  rw [List.map_map]
+  have : ((H.ctx u).edges.map ((fun e => edgeTerm ip pull H.tracked G n t u e) ∘ fun e => (e.target, e.rule)))
+      = (H.ctx u).edges.map (fun e => if e.target = n then
+          (match G u with | some gy => (match pull e.rule gy with | .ok g => ip g t | _ => 0) | none => 0) else 0) := by
+    apply List.map_congr_left
+    intro e _
+    simp only [Function.comp, edgeTerm]
+    by_cases h : e.target = n
+    · rw [if_pos (⟨by rw [h]; exact htn, h⟩ : H.tracked e.target = true ∧ e.target = n), if_pos h]
+      cases G u with
+      | none => rfl
+      | some gy => simp only []; cases hq : pull e.rule gy <;> simp [hq]
+    · rw [if_neg (fun hc => h hc.2), if_neg h]
+  rw [this, sum_filter_eq, hf]
+  simp
+
+theorem edge_sum_none_ip {T : Type} (ip : Tensor ℝ → T → ℝ) (H : Heap ℝ) (pull : Rule ℝ → Tensor ℝ → Out (Tensor ℝ))
+    (G : Nat → Option (Tensor ℝ)) (n u : Nat) (t : T) (hno : ∀ e ∈ (H.ctx u).edges, e.target ≠ n) :
+    ((edgesOf H u).map (fun e => edgeTerm ip pull H.tracked G n t u e)).sum = 0 := by
+  apply Eq.trans (b := (((edgesOf H u).map (fun _ => (0 : ℝ))).sum))
+  · apply sum_congr_map
+    intro e he
+    unfold edgesOf at he
+    obtain ⟨e0, he0, rfl⟩ := List.mem_map.mp he
+    unfold edgeTerm
+    rw [if_neg]
+    intro hc
+    exact hno e0 he0 hc.2
+  · simp
+
+theorem sum_ones_length {β : Type} (l : List β) : (l.map (fun _ => (1 : ℝ))).sum = (l.length : ℝ) := by
+  induction l with
+  | nil => simp
+  | cons a l ih => simp only [List.map_cons, List.sum_cons, ih, List.length_cons]; push_cast; ring
+
+/-- **one consumer, any shapes**: the only visited back edge into `n` comes from `u` with rule `r`; then `n` receives
+    exactly `r` applied to the final gradient of `u` (no accumulation takes place, so no shape hypothesis is needed) -/
+theorem grad_single' (bm : BMode) (H : Heap ℝ) (root : Nat) (hdag : HeapDag H) (htr : H.tracked root = true)
+    (hok : (backprop bm H root).status = .ok ()) (n u : Nat) (hu : u ∈ backwardOrder H root) (hnr : n ≠ root)
+    (hg : H.grad n = none) (htn : H.tracked n = true) (r : Rule ℝ)
+    (hf : (H.ctx u).edges.filter (fun e => decide (e.target = n)) = [⟨n, r⟩])
+    (hother : ∀ v ∈ backwardOrder H root, v ≠ u → ∀ e ∈ (H.ctx v).edges, e.target ≠ n)
+    (gy g : Tensor ℝ) (hgy : (backprop bm H root).heap.grad u = some gy)
+    (hpull : evalRule bm (markDirty H (backwardOrder H root)) gy r = .ok g) :
+    (backprop bm H root).heap.grad n = some g := by
+  obtain ⟨seedG, final, hseed, hfin, hsums, hdef, _⟩ := backprop_adjoint bm H root hdag htr hok
+  obtain ⟨_, hcl, _, hnd⟩ := backwardOrder_spec H root hdag htr
+  have hlt := order_lt_size H root hdag htr
+  have hedge : (⟨n, r⟩ : Edge ℝ) ∈ (H.ctx u).edges := by
+    have : (⟨n, r⟩ : Edge ℝ) ∈ (H.ctx u).edges.filter (fun e => decide (e.target = n)) := by rw [hf]; simp
+    exact (List.mem_filter.mp this).1
+  have hmem : n ∈ backwardOrder H root := by
+    apply hcl u hu
+    unfold succs
+    exact List.mem_filter.mpr ⟨List.mem_map.mpr ⟨⟨n, r⟩, hedge, rfl⟩, htn⟩
+  have hnlt : n < H.size := hlt n hmem
+  rw [hfin n hnlt]
+  have hfu : final u = some gy := by rw [← hfin u (hlt u hu)]; exact hgy
+  -- the seed at n is empty
+  have hs : seedG n = none := by
+    unfold accumG at hseed
+    cases hr : H.grad root with
+    | none =>
+      simp only [hr] at hseed
+      cases hseed
+      simp [updStore, hnr, hg]
+    | some old =>
+      simp only [hr] at hseed
+      cases ha : vArith Arith.add old (vPow (H.val root) Scalar.zero) with
+      | ok s =>
+        rw [ha] at hseed; simp only [Out.bind] at hseed; cases hseed
+        simp [updStore, hnr, hg]
+      | err => rw [ha] at hseed; simp [Out.bind] at hseed
+      | panic => rw [ha] at hseed; simp [Out.bind] at hseed
+  -- the list of contributions has exactly one element, and g is in it
+  let pull := fun (r : Rule ℝ) (gy : Tensor ℝ) => evalRule bm (markDirty H (backwardOrder H root)) gy r
+  let L := contrib pull H.tracked final (bpPairs H root) n
+  have hlen : L.length = 1 := by
+    have h1 := C01z.contrib_sum (α := ℝ) (T := Unit) (ip := fun _ _ => (1 : ℝ)) (pull := pull) (tracked := H.tracked) (G := final) (n := n) (t := ()) (ps := bpPairs H root)
+    rw [sum_ones_length] at h1
+    have h2 : ((bpPairs H root).map (fun p => edgeTerm (T := Unit) (fun _ _ => (1 : ℝ)) pull H.tracked final n () p.1 p.2)).sum = 1 := by
+      unfold bpPairs allPairs
+      rw [sum_flatMap_map (backwardOrder H root) (edgesOf H)
+        (fun v e => edgeTerm (T := Unit) (fun _ _ => (1 : ℝ)) pull H.tracked final n () v e)]
+      rw [sum_one _ (backwardOrder H root) hnd u hu]
+      · rw [edge_sum_single_ip (T := Unit) (fun _ _ => (1 : ℝ)) H pull final n u () r htn hf, hfu]
+        simp only [pull, hpull]
+      · intro v hv hvu
+        exact edge_sum_none_ip (T := Unit) (fun _ _ => (1 : ℝ)) H pull final n v () (hother v hv hvu)
+    have : (L.length : ℝ) = 1 := by rw [← h2]; exact h1
+    exact_mod_cast this
+  have hgL : g ∈ L := by
+    show g ∈ contrib pull H.tracked final (bpPairs H root) n
+    unfold contrib
+    apply List.mem_filterMap.mpr
+    refine ⟨(u, (n, r)), ?_, ?_⟩
+    · unfold bpPairs allPairs
+      apply List.mem_flatMap.mpr
+      refine ⟨u, hu, List.mem_map.mpr ⟨(n, r), ?_, rfl⟩⟩
+      unfold edgesOf
+      exact List.mem_map.mpr ⟨⟨n, r⟩, hedge, rfl⟩
+    · simp only [htn, and_self, if_true, hfu, pull, hpull]
+  have hL : L = [g] := by
+    cases hc : L with
+    | nil => rw [hc] at hlen; simp at hlen
+    | cons a l =>
+      rw [hc] at hlen hgL
+      have : l = [] := by
+        cases l with
+        | nil => rfl
+        | cons b l => simp at hlen
+      subst this
+      simp at hgL
+      rw [hgL]
+  have hS := hsums n
+  rw [hs] at hS
+  change Sums (vArith Arith.add) none L (final n) at hS
+  rw [hL] at hS
+  generalize final n = fb at hS
+  cases hS with
+  | first h2 =>
+    cases h2 with
+    | nil => rfl
+
 end C01w
 end Qeep
